@@ -9,10 +9,13 @@ import (
 	"bytes"
 	"context"
 	"fmt"
+	"io"
+	"log"
 	"os"
 	"path/filepath"
 	"sort"
 	"strings"
+	"sync"
 	"testing"
 	"time"
 
@@ -1501,6 +1504,34 @@ func (r *vsRun) detachPhase() {
 	}
 }
 
+// veLogBuffer collects the service's log lines of one scenario.
+type veLogBuffer struct {
+	mu  sync.Mutex
+	buf bytes.Buffer
+}
+
+func (b *veLogBuffer) Write(p []byte) (int, error) {
+	b.mu.Lock()
+	defer b.mu.Unlock()
+	if b.buf.Len() < 1<<20 {
+		b.buf.Write(p)
+	}
+	return len(p), nil
+}
+
+func (b *veLogBuffer) find(needles ...string) string {
+	b.mu.Lock()
+	defer b.mu.Unlock()
+	for _, line := range strings.Split(b.buf.String(), "\n") {
+		for _, n := range needles {
+			if strings.Contains(line, n) {
+				return line
+			}
+		}
+	}
+	return ""
+}
+
 func slotOf(r *vsRun, v *vsView) int {
 	if r.views[0] == v {
 		return 0
@@ -1525,6 +1556,13 @@ func vsScenario(rt *rapid.T, c *vlib.Case, t *testing.T, cfg vsConfig, open map[
 	r.views[0], r.views[1] = &vsView{}, &vsView{}
 	c.Render(func() any { return map[string]any{"traffic": r.tr.brief(), "history": r.hist} })
 	os.Setenv("VERIF_CONV_LOG", filepath.Join(base, "conversions.log"))
+	// C13: a background job that reads an index file after it was closed only shows in the service's log
+	var svcLog *veLogBuffer
+	if cfg.focus == "C13" && os.Getenv("VERIF_MANAGER_LOG") == "" {
+		svcLog = &veLogBuffer{}
+		log.SetOutput(svcLog)
+		defer log.SetOutput(io.Discard)
+	}
 	e, err := veStart(d, false)
 	if err != nil {
 		rt.Fatalf("manager.New: %v", err)
@@ -1562,6 +1600,11 @@ func vsScenario(rt *rapid.T, c *vlib.Case, t *testing.T, cfg vsConfig, open map[
 	}
 	rt.Repeat(actions)
 	r.finalChecks()
+	if svcLog != nil {
+		if line := svcLog.find("file already closed", "bad file descriptor", "use of closed file"); line != "" {
+			r.fatalf("a background job used an index file after it had been closed; the service logged: %s", line)
+		}
+	}
 
 	c.Count("steps", len(r.hist))
 	for k := range r.kindsDelivered {
